@@ -512,8 +512,10 @@ func convertFacts(s *src, f *facts) {
 		if name != "registry.go" && name != "manager.go" {
 			continue
 		}
+		seenSel := map[ast.Node]bool{} // (a literal substituted at its use by the normaliser is reachable twice)
 		ast.Inspect(file, func(n ast.Node) bool {
-			if se, ok := n.(*ast.SelectorExpr); ok && se.Sel.Name == "closures" {
+			if se, ok := n.(*ast.SelectorExpr); ok && se.Sel.Name == "closures" && !seenSel[n] {
+				seenSel[n] = true
 				sites++
 			}
 			return true
@@ -583,6 +585,12 @@ func convertFacts(s *src, f *facts) {
 						asserted = true
 					case "ErrPanickedWithNonErrorValue":
 						sentinel = len(a.Lhs) == 1
+					}
+					// the same conversion in a helper whose body IS the canonical conversion: `err = H(e)`
+					if c, ok := a.Rhs[0].(*ast.CallExpr); ok && len(a.Lhs) == 1 && len(c.Args) == 1 && s.str(c.Args[0]) == recovered {
+						if id, ok := c.Fun.(*ast.Ident); ok && panicConversionHelper(s, funcDeclInPkg(s, "utils", id.Name)) {
+							asserted, sentinel = true, true
+						}
 					}
 				}
 			}
